@@ -36,6 +36,12 @@ func VerifHarness_C14_Wiring() {
 	verifAssert(ec.ToNRGBA(fa).A == linear.NormalisedTo8Bit(fa), "ToNRGBA: alpha is not the 8-bit quantiser of alpha")
 	verifAssert(ec.ToRGBA(fa).A == linear.NormalisedTo8Bit(fa), "ToRGBA: alpha is not the 8-bit quantiser of alpha")
 	verifAssert(ec.ToRGBA64(fa).A == linear.NormalisedTo16Bit(fa), "ToRGBA64: alpha is not the 16-bit quantiser of alpha")
+	// ... and against the statement itself, written here independently of the quantiser:
+	// clipped to [0,1] (every float32 incl. +Inf and huge values), rounded half up inside
+	a8, a8p, a16 := ec.ToNRGBA(fa).A, ec.ToRGBA(fa).A, ec.ToRGBA64(fa).A
+	verifAssert(verifImplies(fa <= 0, verifAnd(a8 == 0, verifAnd(a8p == 0, a16 == 0))), "encode: alpha <= 0 is not written as 0")
+	verifAssert(verifImplies(fa >= 1, verifAnd(a8 == 255, verifAnd(a8p == 255, a16 == 65535))), "encode: alpha >= 1 is not written as the maximum")
+	verifAssert(verifImplies(verifAnd(fa > 0, fa < 1), verifAnd(a8 == uint8(fa*255+0.5), verifAnd(a8p == uint8(fa*255+0.5), a16 == uint16(fa*65535+0.5)))), "encode: alpha inside (0,1) is not written as round-half-up(alpha*max)")
 	// opaque colours: the three constructors agree (the generic one reads T16[257 v])
 	on, _ := ColorFromNRGBA(color.NRGBA{R: r8, G: g8, B: b8, A: 255})
 	op, _ := ColorFromRGBA(color.RGBA{R: r8, G: g8, B: b8, A: 255})
